@@ -25,6 +25,9 @@ def extra_checks(ft, tier, seed):
                                "composition of the per-function contracts through the public API (A-META on the class corpus; "
                                "update/transform/element helpers/chains not under contract here)",
                                "4 corpus classes (plain, frozen twin, spec subclass, plain subclass) x 5 reachable states x ~87 helper calls with valid and invalid arguments"))
+    out.append(harness.standin('standin.meta-do-not-copy', 'bounded/c02_meta.py', ["--standin", "-", os.path.join(harness.VERIF, "replays", PROPERTY)],
+                               'A-META for do_not_copy: how class-level / attribute-level / inherited declarations reach the Attr records (spec_class.bootstrap, reflection)',
+                               '30 parent/child declaration combinations x attributes x deepcopy / with / update / reset (150 cases)'))
     for f in FINDINGS:
         r = harness.run_json("bounded/spec.py", ["--finding", f])
         if r.get("reproduces"):
